@@ -497,9 +497,25 @@ def ddict_set_rules(prog, res):
                   "%s loads a DDict with ZSTD_decompressBegin_usingDDict on a path that did not consult the set of referenced DDicts: in "
                   "multi-DDict mode the frame's own dictionary is only *identified* later (ZSTD_decodeFrameHeader), the ID check passes and "
                   "the frame is decoded with another dictionary's content and tables" % f.name)
+    # nothing on the frame-decoding path may release a dictionary: its callers (multi-frame loop, legacy dispatch) still hold it
+    path, todo = set(), ["ZSTD_decompressMultiFrame", "ZSTD_decompressFrame", "ZSTD_decodeFrameHeader", "ZSTD_decompressContinue"]
+    while todo:
+        nm = todo.pop()
+        if nm in path or not prog.has_fn(nm):
+            continue
+        cands = prog.functions.get(nm, [])
+        if len(cands) != 1 or not cands[0].file.startswith("lib/decompress/"):
+            continue
+        path.add(nm)
+        todo += list(cands[0].callees())
+    rel = sorted(nm for nm in path if {"ZSTD_clearDict", "ZSTD_freeDDict"} & set(prog.fn(nm).callees()))
+    res.check(len(path) >= 10 and not rel, R, "no-release-while-decoding", "lib/decompress/zstd_decompress.c",
+              "none of the %d functions of the frame-decoding path releases a dictionary" % len(path),
+              "%s, on the frame-decoding path, releases a dictionary (ZSTD_clearDict / ZSTD_freeDDict): the multi-frame loop still holds the context-owned "
+              "dictionary and decodes the next frame from freed memory" % rel)
     res.check(n >= 2, R, "select-before-load:sites", "lib/decompress/zstd_decompress.c", "%d decoding entry points load a DDict" % n,
               "decoding entry points that load a DDict: %d (expected one-shot and streaming)" % n)
-    res.need(R, 5)
+    res.need(R, 6)
 
 
 def window_covers_whole_dictionary(prog, res):
